@@ -834,6 +834,10 @@ for _n, _f in (("jax.tree_util.tree_map", tree_map), ("jax.tree_util.tree_leaves
                ("equinox.is_array", is_array), ("equinox.is_inexact_array", is_inexact_array), ("equinox.is_array_like", is_array_like)):
     ENTRIES[_n] = (_f, "T3")
 ENTRIES["jax.numpy.empty"] = (lambda shape=(), dtype=None: Dummy(shape), "T1")
+# eqx.filter(tree, spec, inverse=...) is one half of eqx.partition
+ENTRIES["equinox.filter"] = (lambda tree, filter_spec, inverse=False, replace=None, is_leaf=None, **kw: partition(tree, filter_spec, is_leaf=is_leaf)[1 if inverse else 0], "T3")
+# jax.eval_shape(f, *args): the abstract evaluation of f -- every model value already carries its shape, so running f is enough
+ENTRIES["jax.eval_shape"] = (lambda f, *a, **k: f(*a, **k), "T3")
 
 
 @entry("equinox.filter_vmap", tier="T3")
